@@ -1,0 +1,8 @@
+//go:build verif
+
+package cisco
+
+// Contracts for the deductive checker in /verif (comment-only file).
+
+//vc:func (*State).LoginEnable
+//vc:  requires[C11] !isCompareRun || pass == loginPass
